@@ -19,7 +19,7 @@ from mc.vlog.lexer import VlogError, ParseError
 
 LEVEL = 'exploration'
 RULE = ('every Verilog text produced for: the design catalogue of C01 (all placements), every pair of catalogue blocks whose '
-        'top block maps to the same module name (built side by side), and the exhaustive naming grid (port names x local wire '
+        'top block maps to the same module name and every pair of two different configurations of one library class in both orders (built side by side), and the exhaustive naming grid (port names x local wire '
         'name x instance name x top-level wire names from a list with reserved words, prefixes w_/i_, clk, r, q), a sample of the '
         'behavioural classes generated for C02, and family hist: the five circuits of C19 (shared named modules, counter, transpiled '
         'FSM, own clock domain, several transpiled classes) after every history of <= H requests / simulation steps / one structural '
@@ -101,7 +101,11 @@ def build_naming(g):
     return hw, ['w_' + xn, 'w_' + yn]
 
 
-twin_pairs = catalog.twin_pairs
+def twin_pairs(tier):
+    """blocks emitted under the same module name, and different configurations of one class, side by side"""
+    return catalog.twin_pairs(tier) + catalog.class_pairs(tier)
+
+
 build_twin = catalog.build_twin
 
 
